@@ -51,6 +51,14 @@ CHECKS['C17'] = dict(
 	text='Seeded search over input channels, label sets with repeats, tied/zero distances, -c, completion orders and hand-outs of the real tree command; the printed tree must be binary, ultrametric, carry exactly the input labels and match some admissible average-linkage clustering of the expected distances. Sampling, not proof.',
 	note=CLI_NOTE + ' The clustering arithmetic is a pure function; simulation only decides leaf-to-genome attachment under completion orders.')
 
+CHECKS['C19'] = dict(
+	category='fault_enumeration', design_ref='DESIGN.md 4.8',
+	technique='crash-point enumeration under simulated process death: SIGKILL at every h5py call boundary and every write-class system call (LD_PRELOAD shim), torn multi-page writes; real loader as recovery',
+	text='For every sampled write (collection, container/write path, compression, payload size, fresh or pre-existing target, library or CLI writer) every h5py call boundary and every write-class system call on the target file is used as a crash point once, '
+	     'plus torn variants of multi-page writes; the survivor is examined by the real loader in a separate process. Crash points per write are enumerated completely; the space of writes is sampled.',
+	note='Trusts: a killed process leaves exactly the effects of its completed system calls (page-multiple prefix for a torn write); power-loss reordering/page-cache loss not modelled; '
+	     'h5py/libhdf5 as installed; pwkill interposes libc write-class calls reached through the PLT (verified for the h5py wheel).')
+
 NOT_APPLICABLE = {
 	'C01': 'pure function of (k, prefix, sequence bytes, container type, accumulator): no schedule, fault, clock or persistent state can change it; input generation against a second definition is property-based testing, not simulation',
 	'C02': 'pure function of two sorted arrays; nothing a simulator decides (order, fault, time) enters',
